@@ -292,6 +292,125 @@ def r15_2(prog, rep):
         rep.broken_("rule=R15.2 expected >=4 call sites of sentinel-returning conversions, found %d" % n)
 
 
+def r15_6(prog, rep):
+    """The zone and scale tags live in the top bits of an instant's month and day bytes.  echs_instant_rescale() reads y/m/d to convert
+    them: the instant it reads them from must have had *both* tags detached (with the zone tag left on, the day comes out 64 too large)."""
+    rid = "R15.6"
+    f = prog.fn("echs_instant_rescale", "scale.c")
+    cfg = f.cfg
+    srcs = set()
+    for b, i, x, line in cfg.all_elems():
+        if not isinstance(x, dict):
+            continue
+        for nn in walk(cfg.resolve(x)):
+            if nn.get("k") == "mem" and nn.get("f") in ("y", "m", "d") and not nn.get("arrow"):
+                base = strip_casts(nn["b"])
+                while base.get("k") == "mem" and not base.get("f") and not base.get("arrow"):     # anonymous struct inside the union
+                    base = strip_casts(base["b"])
+                if base.get("k") == "ref" and "echs_instant_t" in (base.get("t") or ""):
+                    srcs.add(base["n"])
+    n = 0
+    for v in sorted(srcs):
+        fns = set()
+
+        def chase(name, depth=0):
+            for b2, i2, x2, l2 in cfg.all_elems():
+                if not isinstance(x2, dict):
+                    continue
+                for l, kind, nn in writes(x2):
+                    if lv(l) != name:
+                        continue
+                    rhs = nn.get("init") if kind == "decl" else (nn.get("r") if nn.get("k") == "bin" and nn["op"] == "=" else None)
+                    if rhs is None:
+                        continue
+                    for q in walk(cfg.resolve(rhs)):
+                        if q.get("k") == "call" and q.get("fn"):
+                            fns.add(q["fn"])
+                        if q.get("k") == "ref" and q.get("dk") == "local" and q["n"] != name and depth < 3:
+                            chase(q["n"], depth + 1)
+        chase(v)
+        is_param = any(p_["n"] == v for p_ in f.params)
+        n += 1
+        key = "echs_instant_rescale/reads-date-of(%s)" % v
+        need = {"echs_instant_detach_scale", "echs_instant_detach_tzob"}
+        if not is_param and need <= fns:
+            rep.ok(rid, key, f.loc(), "y/m/d are read from %s, which has had scale and zone tag detached" % v)
+        else:
+            rep.fail(rid, key, f.loc(), "y/m/d are read from %s, which has not had %s applied: the tag bits that live in the top of the month/day bytes "
+                     "are converted as part of the date (a zone-tagged instant comes out 64 days or 16 months off)" % (v, " and ".join(sorted(need - fns)) or "both detach functions"))
+    if n < 1:
+        rep.broken_("rule=R15.6 no read of the date fields in echs_instant_rescale found")
+
+
+def _range(x, f, depth=0):
+    """Interval [lo, hi] of a small non-negative arithmetic expression, None when unknown."""
+    x = strip_casts(f.cfg.resolve(x)) if isinstance(x, dict) else x
+    if not isinstance(x, dict) or depth > 12:
+        return None
+    v = const_eval(f, x)
+    if v is not None:
+        return (v, v)
+    k = x.get("k")
+    if k == "bin" and x["op"] == "%":
+        m = const_eval(f, x["r"])
+        if m and m > 0:
+            return (0, m - 1)
+    if k == "bin" and x["op"] in ("+", "-"):
+        a, b = _range(x["l"], f, depth + 1), _range(x["r"], f, depth + 1)
+        if a and b:
+            return (a[0] + b[0], a[1] + b[1]) if x["op"] == "+" else (a[0] - b[1], a[1] - b[0])
+    if k == "cond":
+        c = _range(x["c"], f, depth + 1)
+        fb = _range(x["F"], f, depth + 1)
+        if x.get("T") is None:      # a ?: b  — a when non-zero, else b
+            if c and fb:
+                lo = min(max(c[0], 1), fb[0]) if c[1] >= 1 else fb[0]
+                return (lo, max(c[1], fb[1]))
+            return None
+        tb = _range(x["T"], f, depth + 1)
+        if tb and fb:
+            return (min(tb[0], fb[0]), max(tb[1], fb[1]))
+    if k == "ref" and x.get("dk") == "local":
+        defs = []
+        for b2, i2, x2, l2 in f.cfg.all_elems():
+            if isinstance(x2, dict):
+                for l, kind, nn in writes(x2):
+                    if lv(l) == x["n"]:
+                        rhs = nn.get("init") if kind == "decl" else (nn.get("r") if nn.get("k") == "bin" and nn["op"] == "=" else None)
+                        defs.append(_range(rhs, f, depth + 1) if rhs is not None else None)
+        if defs and all(defs):
+            return (min(d[0] for d in defs), max(d[1] for d in defs))
+    return None
+
+
+def r15_7(prog, rep):
+    """Weekdays are MON=1 .. SUN=7; 0 is MIR, `no such day`.  A weekday computed as a remainder modulo 7 must be moved into 1..7
+    (`+ 1`, or `?: SUN`) before it is returned — a bare remainder says MIR for one day of every week."""
+    rid = "R15.7"
+    n = 0
+    for f in prog.fns_in("scale.c"):
+        if not f.cfg or (f.ret or {}).get("t") != "echs_wday_t":
+            continue
+        for b, i, x, line in f.cfg.all_elems():
+            if not (isinstance(x, dict) and x.get("k") == "ret" and x.get("e") is not None):
+                continue
+            e = strip_casts(f.cfg.resolve(x["e"]))
+            if e.get("k") == "call" or int_value(e) is not None:
+                continue    # dispatch to another weekday function / constant (MIR for unknown scales)
+            rg = _range(e, f)
+            if rg is None:
+                continue
+            n += 1
+            key = "%s/weekday-in-1..7@%s" % (f.name, line)
+            if rg[0] >= 1 and rg[1] <= 7:
+                rep.ok(rid, key, f.loc(line), "returned weekday lies in [%d, %d]" % rg)
+            else:
+                rep.fail(rid, key, f.loc(line), "the returned weekday `%s` ranges over [%d, %d]: %s is not a weekday (MON=1 .. SUN=7, 0 means `no such day`), "
+                         "one day of every week gets no weekday and BYDAY never matches it" % (show(e)[:50], rg[0], rg[1], rg[0] if rg[0] < 1 else rg[1]))
+    if n < 2:
+        rep.broken_("rule=R15.7 expected >=2 computed weekday results in scale.c, found %d" % n)
+
+
 def r15_4(prog, rep):
     """Every index into a month-transition table is dominated by index < number-of-months (the out-of-coverage test is the
     exact negation of what the table access needs)."""
@@ -400,4 +519,8 @@ def run(prog, rep, tier, snap):
     from ..rules import state
     rep.rule("R15.5", "the calendar conversions carry no state from one call to the next (one table's answer never depends on the other's)", 1)
     rep.call(state.no_carried_state, prog, rep, "R15.5", "scale")
+    rep.rule("R15.6", "the rescaler reads the date of an instant with both tags detached", 1)
+    rep.call(r15_6, prog, rep)
+    rep.rule("R15.7", "computed weekdays lie in 1..7", 2)
+    rep.call(r15_7, prog, rep)
 READY = True
